@@ -1,5 +1,6 @@
 #!/venv/bin/python
 """C17 - partial masking keeps exactly the fully supported pixels."""
+import math
 import sys
 from pathlib import Path
 sys.path.insert(0, str(Path(__file__).resolve().parents[1]))
@@ -138,11 +139,17 @@ def body(run):
         elif unaligned:
             # source pixel centres exactly on processing-pixel edges (e.g. 10 m pixels on a 30 m grid shifted by 15 m): the source window of
             # an output block then holds a pixel that nearest re-projection takes from the neighbouring processing pixel
-            ratio = rng.choice([2, 3, 4, 2.5])
+            ratio = [2.5, 3, 2, 4, 1.5][(k // 6) % 5]       # (every kind of tie in turn: 2.5 / 1.5 put every other processing-pixel edge on a source pixel centre)
             def tie_off():
-                return rng.randint(1, 3) + ((rng.randrange(int(ratio)) + 0.5) / ratio if ratio != 2.5 else 0.0)
+                return rng.randint(1, 3) + ((rng.randrange(int(ratio)) + 0.5) / ratio if ratio not in (2.5, 1.5) else 0.0)
             sh = (rng.randint(30, 44), rng.randint(30, 44))
+            if ratio in (2.5, 1.5):
+                # sizes for which the halving block shapes put a block boundary on a tie (boundary index k with k * ratio = odd + 0.5:
+                # k = 3 mod 4 for 2.5, k = 1 mod 4 for 1.5): processing windows of 14 / 22 / 28 (10 / 18 / 26) pixels
+                sh = tuple(int(rng.choice([14, 22, 28] if ratio == 2.5 else [10, 18, 26]) * ratio) for _ in range(2))
             off = (tie_off(), tie_off())
+            if ratio in (2.5, 1.5):
+                off = (rng.choice([2, 4]), rng.choice([2, 4]))       # the reference origin on a source pixel corner (whole source pixels apart)
             g = synth.Geom(rng.choice([1.0, 0.5, 30.0]), ratio, *rng.choice([(16.0, 48.0), (300000.0, 6200000.0)]),
                            (int(off[0] + sh[0] / ratio) + 4, int(off[1] + sh[1] / ratio) + 4), off, sh)
         elif on_ref:
@@ -171,7 +178,8 @@ def body(run):
         pair = fz.make_pair(run.work, g, rng, src=src, smask=sm, rmask=rm, tag='m')
         exp = None if unaligned else expected_mask(pair, g, on_ref, kshape)
         masks = []
-        for target in (1, rng.choice([4, 9, 16])):
+        # (for the tie geometries several block sizes: whether a block boundary falls on a tie depends on the block shape)
+        for target in ((1, rng.choice([4, 9, 16])) if not (unaligned and k % 2 == 1) else (1, 4, 9, 16, 25)):
             try:
                 mbm, nblk = fz.pick_block_mem(pair['src_fn'], pair['ref_fn'], 'auto', target, kshape)
                 res = fz.fuse(pair['src_fn'], pair['ref_fn'], run.work / 'mp.tif', model=model, kernel_shape=kshape, proc_crs='auto', max_block_mem=mbm,
@@ -197,14 +205,41 @@ def body(run):
                 problems['differs from "window grown by one fully supported"'] = dict(pixel=[int(d[0]), int(d[1])], got=bool(got[d[0], d[1]]), n_diff=int((got != exp).sum()))
             if problems:
                 run.add_violation('partial masking keeps / drops the wrong pixels', desc, observed=problems, signature=dict(kind='partial-mask', grid=res['proc_crs'], parts=sorted(problems)))
-        if len(masks) == 2 and not np.array_equal(masks[0], masks[1]):
+        for other in masks[1:]:
+            if np.array_equal(masks[0], other):
+                continue
+            masks = [masks[0], other]
             d = np.argwhere(masks[0] != masks[1])
+
+            # is every differing source pixel one whose centre lies exactly on a processing-pixel edge (the mask reaches the source grid by a
+            # nearest re-projection; GDAL breaks such ties from block-relative coordinates - the artefact of finding D15)?
+            def on_edge(idx, off_):
+                v = off_ + (idx + 0.5) / g.ratio
+                return abs(v - round(v)) < 1e-9
+            tie_only = on_ref and g.ratio > 1 and all(on_edge(int(a), g.off_rc[0]) or on_edge(int(b), g.off_rc[1]) for a, b in d)
+            # ... and only at the EDGE of the mask (within one processing pixel of both a kept and a dropped pixel of the one-block result): a tie can
+            # move the edge by a pixel; rows / columns dropped inside the kept area (along block seams) are something else
+
+            def grow(m, r):
+                out = m.copy()
+                for dy in range(-r, r + 1):
+                    for dx in range(-r, r + 1):
+                        sh_ = np.zeros_like(m)
+                        ys, yd = (slice(max(0, dy), m.shape[0] + min(0, dy)), slice(max(0, -dy), m.shape[0] + min(0, -dy)))
+                        xs, xd = (slice(max(0, dx), m.shape[1] + min(0, dx)), slice(max(0, -dx), m.shape[1] + min(0, -dx)))
+                        sh_[yd, xd] = m[ys, xs]
+                        out |= sh_
+                return out
+            reach = int(math.ceil(g.ratio))
+            edge_band = grow(masks[0], reach) & grow(~masks[0], reach)
+            tie_only = tie_only and bool(edge_band[tuple(d.T)].all())
             run.add_violation('partial mask depends on the block size', dict(geom=g.describe(), kernel_shape=list(kshape), model=model,
                               src_mask=pair['smask'].astype(int).tolist(), ref_mask_invalid=[[int(a), int(b)] for a, b in np.argwhere(~pair['rmask'])]),
                               observed=dict(differing_pixels=[[int(a), int(b)] for a, b in d[:10]], one_block=[bool(masks[0][a, b]) for a, b in d[:10]],
                                             expected=None if exp is None else [bool(exp[a, b]) for a, b in d[:10]], n_diff=int(len(d))),
-                              signature=dict(kind='partial-mask-blocks', model=model, aligned=not unaligned,
+                              signature=dict(kind='partial-mask-blocks', model=model, aligned=not unaligned, cause='nearest-tie' if tie_only else 'other',
                                              pattern='lost-only' if not (masks[1] & ~masks[0]).any() and (exp is None or np.array_equal(masks[0], exp)) else 'other'))
+            break
     run.cov['evaluations'] += 0
     run.cov['rule'] = ('_full_coverage_mask on in-memory masks (input grid 1x / 2x / 4x finer, aligned) against the Gallina erosion in Coq; real fusions '
                        'with mask_partial=True on aligned dyadic geometries, both processing grids (source finer: ref grid; source equal / coarser: src grid), '
